@@ -20,8 +20,9 @@ import time
 
 import z3
 
-SIM = '/repo/simprocesd/model/simulation.py'
-BUF = '/repo/simprocesd/model/factory_floor/buffer.py'
+REPO = os.environ.get('VERIF_REPO', '/repo')   # /repo unless a scratch copy is being self-tested
+SIM = REPO + '/simprocesd/model/simulation.py'
+BUF = REPO + '/simprocesd/model/factory_floor/buffer.py'
 
 
 class Untranslatable(Exception):
